@@ -9,6 +9,7 @@ WORLD_NOTE = ("Theorems are about the hand-written Lean model (lean/SpecsModel/M
               "/repo's working tree by the differential run only (bounded-exhaustive + random histories). Trusted: Lean kernel, axioms "
               "propext/Classical.choice/Quot.sound, the harness, the line protocol, bin/check. Indices < 2^24 and < 2^31 reuses per index; "
               "no forged handles.")
+HOOK_COMMITS = ["81a403f", "95e1e2b"]   # H1 yield points (entity allocator), H3 caller-driven split tree (par_join)
 CLAIMED = {
     "C01": dict(
         text="Lean theorems (C01.handles_unique, C01.no_shared_index, C01.no_panic) prove for every op sequence of the allocator/world-entity model that "
@@ -168,6 +169,70 @@ CLAIMED.update({
         design="7/C19", note=STORE_NOTE + " Zero values (unit value of the null storage, default fillers) never panic in model and harness; faults inside lazily queued actions are not modelled nor injected; which of the remaining values "
              "Vec/HashMap/BTreeMap::clear and the world's resource map still destroy after a panic is taken from the run (required to be a sub-multiset of what the complete operation destroys). A second panic during unwinding aborts and is outside the property."),
 })
+CLAIMED.update({
+    "C08": dict(
+        text="Lean theorems on the world model with a ghost accounting wrapper (values moved in / handed back read off every op and its result, at top level and inside lazily executed scripts nested to any depth; "
+             "world_is_model_world: the wrapper computes the model): ledger_balances (for EVERY well-typed history and fuel: held + destroyed + handed back = moved in as multisets of tokens), "
+             "each_value_returned_or_destroyed_once (distinct tokens in => no token twice among destroyed ++ returned, none of them still held), never_leaked_once_world_dropped / exactly_once_after_drop "
+             "(after drop_world nothing is held, the queue is empty, destroyed ++ returned is a permutation of moved in), no_operation_exposes_invalid_slot (+ _step, + nested: no op of any history reaches the model's "
+             "'ub' outcome = read of a moved-out / never-written slot, nor panics), per-operation laws remove_returns_the_stored_value_once, overwrite_returns_old_keeps_new, clear_destroys_each_value_once, "
+             "entity_deletion_destroys_each_component_once, null_storage_values_are_unit, default_fillers_are_not_tokens. Correspondence: the harness stores instrumented components whose Drop logs the token; every transcript line "
+             "carries the multiset destroyed by that op and the model must predict it (DIFF); the ledger monitor (WorldSpec) checks on the implementation's transcript alone that no token is destroyed/returned twice and that "
+             "drop_world leaves nothing unaccounted.",
+        technique="Lean 4 proof (conservation law by mutual induction over ops/scripts/queue; no-exposure from the world invariant) on a hand-written model + differential correspondence check with instrumented destructors + executable ledger monitor",
+        design="7/C08", note=STORE_NOTE + " Hypothesis scriptOk of the conservation theorems: values of the zero-sized (null) kind are the unit value 0. Statements are about non-zero tokens (0 = unit value and default filler). "
+             "Destruction inside std containers is taken as 'each element once' (Vec/HashMap/BTreeMap clear/drop). Panicking destructors are the subject of C19."),
+    "C16": dict(
+        text="Lean theorems on an executable model of ChangeSet (mask + DenseVecStorage with its three tables): add_never_fails, build_ok / content / build_eq_fromIter (EVERY pair sequence fed by from_iter, extend, add or any "
+             "mixture builds, without panic/ub, a structurally sound set holding for each index exactly the concatenation of its amounts in arrival order and nothing for other indices), extend_after_fromIter, join_shared / "
+             "join_mut / join_mut_append (joined with ANY other-members mask: one item per common index, ascending, each accumulated amount exactly once, set unchanged resp. updated in place), consume_exactly_once / "
+             "consume_all / consume_remainder_is_clean (by-value join stopped after n items: yielded ++ destroyed-by-drop is a permutation of the accumulated amounts), clear_empties, per_entity_eq_per_index + "
+             "alive_handles_consistent (per-entity = per-index for handles alive together) and same_index_other_generation_shares_slot (the excluded case, stated and observed). Correspondence: random scripts on the real "
+             "ChangeSet with instrumented amounts (arrival order visible, Drop logged) joined with real storages and the entities resource; model compared line by line incl. destruction; C16 monitor on the implementation's transcript.",
+        technique="Lean 4 proof (dense-storage representation invariant + refinement to per-index accumulation, induction over pair sequences and join prefixes) on a hand-written model + differential correspondence check + executable monitor",
+        design="7/C16", note="Model: lean/SpecsModel/ChangeSet/Model.lean (hand-written from src/changeset.rs and DenseVecStorage). hibitset BitSet/BitAnd/BitIter are taken as finite set, intersection and ascending iteration (their "
+             "verification is C06/C07); JoinIter calls get once per index of the combined mask. Amounts are integer sequences under concatenation (any non-commutative AddAssign). Trusted: Lean kernel, propext/Classical.choice/Quot.sound, harness, line protocol, bin/check."),
+    "C10": dict(
+        text="Lean theorems on a small-step model of the shared-access phase (one tick per atomic step of Allocator::allocate_atomic / kill_atomic / EntityCache::pop_atomic / atomic_increment / atomic_decrement incl. CAS retry and "
+             "spurious compare_exchange_weak failure, LazyUpdate queue push, is_alive, entities join) for ANY start allocator satisfying the sequential invariant, ANY number of threads and programs, and EVERY schedule (unbounded): "
+             "reach_inv (phase invariant), handles_distinct, created_alive_from_return, alive_stable, delete_alive_ok (a completed delete returns Ok iff the handle was alive at phase start or created in the phase), no_panic "
+             "(pop_atomic slot index and del_err in bounds), trace_grows, quiescent_nothing_lost (every created handle raised, every requested deletion recorded, every queued tag in the queue exactly once), after_maintain "
+             "(composition with the sequential theorems: alive = initial + created - requested, AllocInv holds again), start_of_history (any sequential history yields a valid start). Correspondence: hook H1 puts a yield point at "
+             "each atomic step; h_conc runs REAL threads on a real World serialised along a schedule, prints each completed call, and the Lean driver replays the same schedule on the model; every schedule of small thread/program "
+             "sets is enumerated, larger ones sampled; an unserialised stress mode samples real preemption against the monitor.",
+        technique="Lean 4 proof (inductive invariant over all interleavings of a small-step model, composed with the sequential allocator refinement) + schedule-controlled differential correspondence check on real threads + executable monitor",
+        design="7/C10", note="Partial with respect to the runtime: interleavings are sequentially consistent; hardware reorderings of the Relaxed atomics, crossbeam SegQueue internals and hibitset AtomicBitSet internals are outside the model "
+             "(SegQueue = atomic FIFO, add_atomic = one fetch_or) and only sampled by the stress mode. Requires source hook H1 (cfg specs_verif). Trusted: Lean kernel, propext/Classical.choice/Quot.sound, harness scheduler, line protocol, bin/check."),
+})
+CLAIMED.update({
+    "C06": dict(
+        text="Lean theorems C06.join_items / join_indices / keys_exact / keys_ascending prove, for every world, every member list (any arity, any mix of &storage, &mut storage, !&storage, .maybe(), &entities, bit-set expressions, "
+             "restricted storages, drains, entries, change sets) and every visitor, that the join has defined behaviour (no unchecked access outside a mask), visits exactly the indices in every required and no negated member, once "
+             "each, ascending, and that the item at an index is read from the pre-join world (closed form of the loop); item_is_lookup / maybe_some_iff: components equal the direct lookup, .maybe() is Some iff member; write_frame / "
+             "join_frame / join_writes_visible / join_maybe_writes_visible / join_drain_removes: a write through an item changes that index of that store only; lend_same_items / lend_get_iff / lend_get_unchecked_iff: the lending "
+             "iterator visits the same list and get(e) is Some iff e alive and in the mask. Level B (level_b_next / level_b_enumerates / level_b_bitset / level_b_world / level_b_join_keys): hibitset's BitIter over the four-layer "
+             "representation - BitSets built by any add/remove history, the And/Or/Not/Xor/All composites and the BitAnd tree of the tuple - yields exactly the Level-A key list. The spec (filter of candidate indices by per-member "
+             "membership + direct lookups, recomputed independently of the model) runs as monitor on the real crate's transcripts; the model (Level A and B) is compared item by item on 56 statically typed shapes over random worlds "
+             "up to 3*10^5 entities and raw bit sets up to 2^24-1.",
+        technique="Lean 4 proof (closed form of the join loop; invariant-free refinement of hibitset's BitIter) on a hand-written two-level model; differential correspondence check on statically typed join shapes + independent executable spec monitor",
+        design="7/C06", note="Theorems are about the hand-written Lean model (lean/SpecsModel/Join/Model.lean, HiBitSet.lean); tied to /repo's working tree by the differential run only. hibitset is modelled at two levels; the residual "
+             "assumption is the abstraction of a 64-bit word as the ascending list of its set-bit positions (trailing_zeros = head, mask arithmetic = filter, prefix|bit = prefix+bit), exercised on masks straddling 63/64, 4095/4096, "
+             "262143/262144 and indices up to 2^24-1; Vec growth of BitSet layers and AtomicBitSet atomics are not modelled. Storage-kind internals are abstracted to mask+values (C04). Exclusive borrows of one tuple are pairwise "
+             "distinct (Rust borrow checker) - hypothesis MutDistinct of the write-back theorems. 64-bit target, indices < 2^24. Trusted: Lean kernel, axioms propext/Classical.choice/Quot.sound, the harness, the line protocol, bin/check."),
+    "C07": dict(
+        text="Lean theorems, for every world, every par-admissible member list, every visitor and EVERY split tree: C07.par_perm_seq - leaf by leaf the parallel join delivers the items of exactly its own keys and all leaves together "
+             "a permutation of the sequential join's items (List.Perm), with defined behaviour; leaves_disjoint - leaves are pairwise index-disjoint and keep ascending order; any_schedule_same_post - for any order or item-level "
+             "interleaving of the leaf executions the items are a permutation of the sequential ones and the post-state (kind, mask, event channel, every value of every store) is the sequential post-state, because writes at distinct "
+             "indices commute for the kinds of the DistinctStorage table (table_kinds_are_quiet; a kernel-checked counterexample shows FlaggedStorage must stay out). Level A takes the key splitter as a parameter with contract SplitOK; "
+             "Level B (level_b_splitOK / level_b_leaves / level_b_par_perm_seq) proves the contract for the model of hibitset's BitProducer::split (three levels, descend on a single bit, average_ones arbitrary) on every producer "
+             "reachable from a fresh iterator, end to end over the layered tuple mask. Correspondence: hook H3 drives explicit split trees (all 677 trees of depth <= 4, random trees to depth 12), leaf contents compared exactly with "
+             "the Level-B model; real par_join().for_each/map/collect on rayon pools of 1,2,3,8,16,64,128 threads; capability table diff.",
+        technique="Lean 4 proof (permutation + commutation over arbitrary split trees and schedules; splitter contract proved for the BitProducer model) on a hand-written model; differential check with deterministic split-tree enumeration (hook H3), rayon pool sampling, type-level capability probes",
+        design="7/C07", note="Theorems are about the hand-written Lean model (lean/SpecsModel/Join/ParJoin.lean, HiBitSet.lean, Model.lean); tied to /repo by the differential run only. rayon is a parameter (arbitrary finite split tree, "
+             "arbitrary schedule at item granularity: one get+visit is atomic); the real work-stealing scheduler is only sampled. hibitset modelled at two levels, residual assumption word <-> ascending position list; average_ones is "
+             "arbitrary in the theorems, its real value is only checked by correspondence. The Rust memory model below item granularity is the DistinctStorage contract itself and is not modelled. Needs hook H3 "
+             "(hooks/H3_par_join_drive.patch, committed in /repo under cfg specs_verif) for the split-tree part. 64-bit target, indices < 2^24. Trusted: Lean kernel, axioms propext/Classical.choice/Quot.sound, the harness, the line protocol, bin/check."),
+})
 checks = []
 for pid in ALL:
     if pid in CLAIMED:
@@ -192,7 +257,7 @@ m = {
         "guard": "--cfg specs_verif",
         "enable": "RUSTFLAGS='--cfg specs_verif' (set by bin/check and bin/setup when building harness/ against /repo)",
         "baseline_off_cmd": "cd /repo && cargo test --workspace --no-fail-fast --offline",
-        "source_commits": [],
+        "source_commits": HOOK_COMMITS,
         "add_only": True,
     },
     "engines": [{"name": "lean-model+harness", "path": "/verif/lean + /verif/harness + /verif/bin",
